@@ -34,6 +34,10 @@ class Obligation:
                 'status': 'discharged' if self.ok else 'VIOLATED', 'detail': self.detail}
 
 
+class AbortRules(Exception):
+    """Raised by Context.need after recording the violation."""
+
+
 class Context:
     """Handed to every rule: the program model plus obligation bookkeeping."""
 
@@ -102,6 +106,17 @@ class Context:
             self.functions_analysed.add(fi.qualname)
         return bool(ok)
 
+    def need(self, rule: str, cond: bool, text: str, fi: Optional[FuncInfo], node: Optional[ast.AST] = None,
+             *, construct: Optional[str] = None) -> None:
+        """A step the rule depends on must be present in recognisable form inside an anchored
+        function.  When it is absent that is a violated obligation ("required step absent"),
+        and the rest of this property's rules, which build on it, are abandoned."""
+        if cond:
+            return
+        self.check(rule, False, text, fi, node if node is not None else (fi.node if fi else None),
+                   construct=construct or f"required step absent: {text}", detail='required step absent or not in a recognised form')
+        raise AbortRules(text)
+
     def require(self, cond: bool, message: str) -> None:
         """The analysis itself needs this to stand; otherwise ANALYSIS-ERROR."""
         if not cond:
@@ -141,12 +156,6 @@ def finish(ctx: Context, started: float, seed: int, *, extra_coverage: Optional[
            evidence_dir: Optional[Path] = None, replay_dir: Optional[Path] = None,
            write_evidence: bool = True, quiet: bool = False) -> int:
     known = load_known()
-    # instance floors: a rule that matches fewer sites than were confirmed by hand is broken
-    for rule, floor in ctx.floors.items():
-        if ctx.instances.get(rule, 0) < floor:
-            raise AnalysisError(
-                f"rule {rule} matched {ctx.instances.get(rule, 0)} site(s), fewer than the "
-                f"{floor} confirmed on the reference tree; the rule no longer finds its instances")
     violations = []
     known_hits = []
     for ob in ctx.obligations:
@@ -157,6 +166,15 @@ def finish(ctx: Context, started: float, seed: int, *, extra_coverage: Optional[
             known_hits.append((ob, entry))
         else:
             violations.append(ob)
+    # instance floors guard against vacuous passes: a rule that matches fewer sites than
+    # were confirmed by hand no longer finds its instances.  A violated obligation is
+    # reported as such even when it made dependent obligations unreachable.
+    if not violations:
+        for rule, floor in ctx.floors.items():
+            if ctx.instances.get(rule, 0) < floor:
+                raise AnalysisError(
+                    f"rule {rule} matched {ctx.instances.get(rule, 0)} site(s), fewer than the "
+                    f"{floor} confirmed on the reference tree; the rule no longer finds its instances")
     total = len(ctx.obligations)
     discharged = sum(1 for o in ctx.obligations if o.ok)
     wall = time.time() - started
